@@ -478,7 +478,10 @@ S.append(Schema('trace_rules', [Rule('R', Alt(Seq(F('m', 0, Ref('M')), fc()), Se
                                 Rule('M', Seq(fa()), skip=False, memo=True, checks=[(0, 'chk_m', 'first')]),
                                 Rule('L', Alt(Seq(F('l', 1, Ref('L'), boxed=True), fb()), fb()), skip=False, leftrec=True)], 'R', 'ABCD', n=2, nchk=1, nonzero='B',
     props=('C19',), tracer=True, cmp_err=False, cmp_fields=False, support='    pub fn chk_m(v: &M) -> bool { check(0, v.a) }\n',
-    extract='',
+    # the tree is not compared with the reference semantics (cmp_fields=False) but with the run without a tracer (differential twin)
+    extract=J('                if let Some(m) = &v.m { o.f[0].push(m.a); }', opt(2, 'v.c'), opt(3, 'v.d'),
+              '                fn walk(l: &L, o: &mut Obs) { if let Some(p) = &l.l { walk(p, o); } o.f[1].push(l.b); }',
+              '                if let Some(l) = &v.l { walk(l, &mut o); }'),
     post='        if !trace_balanced() { return Err("C19: rule entries and exits reported to the tracer are not properly nested"); }\n        if trace_events() == 0 { return Err("C19: tracer saw no rule entry"); }',
     note='with a recording tracer: every entry has exactly one exit also for failing, cached and left-recursive rules'))
 
@@ -494,5 +497,17 @@ S.append(Schema('layout_variants', [], 'R', '', expect='same_as:layout_tight', p
     note='layout, comments and quote style do not change the grammar that is read'))
 S.append(Schema('layout_tight', [], 'R', '', expect='compile', props=('C12',), kani=False,
     raw_ebnf=("@export @no_skip_ws R='a'..'z'|('q' x:X);@char @check(crate::ops::chk_char0) @check(crate::ops::chk_char0) X='0'..'9'|'_';"), note='tight layout twin (both @check directives after @char)'))
+
+# ---------------------------------------------------------------------------------------------- differential twins
+# C13 / C05 / C19 are statements of the form "with the feature the parser behaves exactly as without it". They are decided by
+# running the schema and an automatically derived twin (same tree, operands, alphabet, bound; the feature removed) on every
+# table and comparing the two REAL runs - so a change that breaks both sides alike is not reported under these properties.
+from schemas import derive_twin, has_include
+for _s in list(S):
+    if _s.expect != 'ok' or _s.isolated or _s.raw_ebnf is not None: continue
+    if has_include(_s): S.append(derive_twin(_s, 'inl'))
+    # C05 excludes rules that are part of a left-recursive cycle: only @memoize on ordinary rules is toggled
+    if 'C05' in _s.props and any(getattr(r, 'memo', False) and not getattr(r, 'leftrec', False) for r in _s.rules): S.append(derive_twin(_s, 'nomemo'))
+    if _s.tracer: S.append(derive_twin(_s, 'notrace'))
 
 SCHEMAS = {s.name: s for s in S}
